@@ -6885,6 +6885,7 @@ handlers = {
     'BSC_write_nocancel': partial(handle_write, no_cancel=True),
     'BSC_open_nocancel': partial(handle_open, no_cancel=True),
     'BSC_sys_close_nocancel': partial(handle_sys_close, no_cancel=True),
+    'BSC_wait4': handle_wait4,
     'BSC_wait4_nocancel': partial(handle_wait4, no_cancel=True),
     'BSC_recvmsg_nocancel': partial(handle_recvmsg, no_cancel=True),
     'BSC_sendmsg_nocancel': partial(handle_sendmsg, no_cancel=True),
